@@ -232,6 +232,10 @@ pub fn doc(rng: &mut Rng, f: &DocFlags) -> String {
     }
     if !f.final_newline && out.ends_with('\n') {
         out.pop();
+    } else if out.ends_with('\n') && rng.chance(1, 40) {
+        // a CR ends a line as well: the last line is terminated, just not by LF
+        out.pop();
+        out.push('\r');
     }
     out
 }
